@@ -80,8 +80,16 @@ TrHandle ==
         /\ Check("C09", Ev.res = "ok" => BagOf(Ev.wraps) = BagOf(ExpWrapsHandle(pat, mws, Ev.methods)),
                  <<"factory invocations", pat, Ev.wraps, ExpWrapsHandle(pat, mws, Ev.methods)>>)
         /\ Check("C19", "mres" \in DOMAIN Ev => Ev.mres = Ev.res, <<"facade verdict", pat, Ev.res>>)
+        /\ Check("C19", ~Ev.clobber, <<"the call wrote into the caller's middleware slice", pat>>)
+        /\ Check("C09", ~Ev.clobber, <<"the call wrote into the caller's middleware slice", pat>>)
         /\ rt' = IF Ev.res = "ok" THEN DoHandle(rt, pat, Ev.h, mws, Ev.methods) ELSE rt
         /\ prevRt' = rt /\ lastEv' = "handle"
+
+\* creating a Prefix / Resource object changes nothing; later calls through it are desugared with its chain
+TrFacade ==
+  /\ Ev.ev = "facade" /\ UNCHANGED <<rt, prevRt, lastEv>>
+  /\ Check("C05", Ev.res = "ok", <<"facade constructor panicked">>)
+  /\ Check("C19", ~Ev.clobber, <<"the constructor wrote into the caller's middleware slice">>)
 
 TrRemove ==
   /\ Ev.ev = "remove"
@@ -120,6 +128,7 @@ BagLeq(a, b) == \A x \in DOMAIN a : x \in DOMAIN b /\ a[x] <= b[x]
 TrUse ==
   /\ Ev.ev = "use"
   /\ Check("C05", Ev.res = "ok", <<"Use panicked">>)
+  /\ Check("C09", ~Ev.clobber, <<"Use wrote into the caller's middleware slice">>)
   /\ Check("C09", /\ BagLeq(BagOf(ExpWrapsUse(Ev.mws)), BagOf(Ev.wraps))
                   /\ BagLeq(BagOf(Ev.wraps), BagOf(ExpWrapsUse(Ev.mws) \o OptWrapsUse(Ev.mws))),
            <<"factory invocations of Use", Ev.wraps, ExpWrapsUse(Ev.mws)>>)
@@ -263,7 +272,7 @@ TrReq ==
 TraceNext ==
   /\ l <= Len(Trace)
   /\ l' = l + 1
-  /\ (TrReset \/ TrHandle \/ TrRemove \/ TrClean \/ TrUse \/ TrRoutes \/ TrServe \/ TrURL \/ TrSyntax \/ TrTraceHelper \/ TrReq)
+  /\ (TrReset \/ TrFacade \/ TrHandle \/ TrRemove \/ TrClean \/ TrUse \/ TrRoutes \/ TrServe \/ TrURL \/ TrSyntax \/ TrTraceHelper \/ TrReq)
   /\ (l' > Len(Trace) => PrintT("TRACE-END " \o ToString(Len(Trace))))
 
 Spec == Init /\ [][TraceNext]_vars
